@@ -14,6 +14,9 @@ META = {
              'read-only, big-endian, cast, or the write failed'),
     'required_obs': {'quick': ['digest-compared', 'src-inline', 'src-dict', 'src-struct', 'src-hdf5', 'big-endian',
                                'cast', 'view', 'readonly', 'failed-write', 'h5-open-audited', 'readonly-differential', 'native-zero-copy', 'dict-plus-inline', 'hc-write-ok', 'cast-of-out-of-range-values', 'special-values-in-index', 'syscall-source-open-seen']},
+    'technique': ('runtime monitoring: digests of every caller-owned buffer / data object / HDF5 file before and after each write, '
+                  'read-only vs. writable differential, recording wrapper on h5py.File, and strace of a child process '
+                  '(the HDF5 source is only opened O_RDONLY and never written at the level of the operating system)'),
     'assumptions': ['sys.addaudithook sees Python-level open(); h5py opens are observed through the h5py.File mode '
                     'argument recorded by a wrapper on h5py.File.__init__ and, in the thorough tier, through strace'],
 }
